@@ -27,8 +27,8 @@ theorem plainDrop_rel (c : Cfg) (hw : c.wipe = true) (m : Mach) (v : PVec) :
 theorem protDrop_rel (c : Cfg) (hw : c.wipe = true) (m : Mach) (v : PVec) (lm : LM) (pm : PM) :
     (protDrop c m v lm pm).rel = m.rel ++ relOf v.cap := by
   unfold protDrop
-  rw [plainDrop_rel c hw]
-  by_cases h1 : pm = .rw <;> by_cases h2 : lm = .locked <;> simp [h1, h2]
+  rw [plainDrop_rel c hw, protZeroize_rel]
+  rfl
 
 theorem objDrop_rel (c : Cfg) (hw : c.wipe = true) (m : Mach) (o : Obj) :
     (objDrop c m o).rel = m.rel ++ relOf o.v.cap := by
@@ -37,8 +37,9 @@ theorem objDrop_rel (c : Cfg) (hw : c.wipe = true) (m : Mach) (o : Obj) :
   · exact protDrop_rel c hw m _ _ _
 
 /-- `Vec::resize`: a release happens iff the vector reallocates, and then it is the old block -/
-theorem vecResize_rel (c : Cfg) (hw : c.wipe = true) (m : Mach) (v : PVec) (n : Nat) (hl : v.len ≤ v.cap) :
-    (vecResize c m v n).1.rel = m.rel ++ (if n ≤ v.cap then [] else relOf v.cap) := by
+theorem vecResize_rel (c : Cfg) (hw : c.wipe = true) (m : Mach) (v : PVec) (n : Nat) (hl : v.len ≤ v.cap)
+    (b : UInt8 := 0) :
+    (vecResize c m v n b).1.rel = m.rel ++ (if n ≤ v.cap then [] else relOf v.cap) := by
   unfold vecResize
   split
   · rename_i h1; rw [if_pos (by omega)]; simp
@@ -47,13 +48,13 @@ theorem vecResize_rel (c : Cfg) (hw : c.wipe = true) (m : Mach) (v : PVec) (n : 
   · simp only []
     rw [vecDrop_rel c hw, alloc_rel]
 
-theorem vecResize_empty_rel (c : Cfg) (hw : c.wipe = true) (m : Mach) (n : Nat) :
-    (vecResize c m PVec.empty n).1.rel = m.rel := by
-  rw [vecResize_rel c hw m _ n (by simp)]
+theorem vecResize_empty_rel (c : Cfg) (hw : c.wipe = true) (m : Mach) (n : Nat) (b : UInt8 := 0) :
+    (vecResize c m PVec.empty n b).1.rel = m.rel := by
+  rw [vecResize_rel c hw m _ n (by simp) b]
   split <;> simp [relOf]
 
-theorem vecResize_empty_cap (c : Cfg) (m : Mach) (n : Nat) :
-    (vecResize c m PVec.empty n).2.cap = if n = 0 then 0 else growCap 0 n := by
+theorem vecResize_empty_cap (c : Cfg) (m : Mach) (n : Nat) (b : UInt8 := 0) :
+    (vecResize c m PVec.empty n b).2.cap = if n = 0 then 0 else growCap 0 n := by
   unfold vecResize
   by_cases h : n = 0
   · simp [h]
@@ -70,7 +71,7 @@ theorem vecClone_cap (c : Cfg) (m : Mach) (v : PVec) : (vecClone c m v).2.cap = 
   · rfl
 
 /-- a lock request releases the consumed region iff it fails -/
-theorem lockV_rel (c : Cfg) (hw : c.wipe = true) (m : Mach) (v : PVec) (pm : PM) :
+theorem lockV_rel (c : Cfg) (hw : c.wipe = true) (m : Mach) (v : PVec) (pm : LM × PM) :
     (lockV c m v pm).1.rel = m.rel ++ (if (lockV c m v pm).2 = true then [] else relOf v.cap) := by
   unfold lockV
   by_cases h : (dryocMlock c m (ptr c v) v.len).2 = true
@@ -80,14 +81,15 @@ theorem lockV_rel (c : Cfg) (hw : c.wipe = true) (m : Mach) (v : PVec) (pm : PM)
 
 /-- resize of a locked region (resize-by-copy): on success exactly the OLD block is released;
 on failure (panic) exactly the half-built NEW block -/
-theorem lockedResize_rel (c : Cfg) (hw : c.wipe = true) (m : Mach) (v : PVec) (n : Nat) :
-    (lockedResize c m v n).1.rel = m.rel ++
-      (if (lockedResize c m v n).2.isSome then relOf v.cap
-       else relOf (vecResize c m PVec.empty n).2.cap) := by
-  have h1 := lockV_rel c hw (vecResize c m PVec.empty n).1 (vecResize c m PVec.empty n).2 .rw
-  rw [vecResize_empty_rel c hw] at h1
+theorem lockedResize_rel (c : Cfg) (hw : c.wipe = true) (m : Mach) (v : PVec) (rc : LM × PM) (n : Nat)
+    (b : UInt8 := 0) :
+    (lockedResize c m v rc n b).1.rel = m.rel ++
+      (if (lockedResize c m v rc n b).2.isSome then relOf v.cap
+       else relOf (vecResize c m PVec.empty n b).2.cap) := by
+  have h1 := lockV_rel c hw (vecResize c m PVec.empty n b).1 (vecResize c m PVec.empty n b).2 recNew
+  rw [vecResize_empty_rel c hw m n b] at h1
   unfold lockedResize
-  by_cases h : (lockV c (vecResize c m PVec.empty n).1 (vecResize c m PVec.empty n).2 .rw).2 = true
+  by_cases h : (lockV c (vecResize c m PVec.empty n b).1 (vecResize c m PVec.empty n b).2 recNew).2 = true
   · simp only [h, if_true, Option.isSome_some]
     rw [protDrop_rel c hw, h1]; simp [h]
   · simp only [h, if_false, Option.isSome_none, Bool.false_eq_true]
@@ -134,11 +136,16 @@ theorem step_drop_rel (c : Cfg) (hw : c.wipe = true) (s : State) {i : Nat} {sl :
 
 /-! ### the wipe writes to writable pages -/
 
-/-- `deallocate` = make the data pages `rw`, wipe, make both guards `rw`, log, free -/
+/-- the three `mprotect` calls of `deallocate`, in order: data pages, fore guard, aft guard -/
+def deallocCalls (c : Cfg) (k : Kernel) (v : PVec) : Kernel :=
+  mprotect c.P (mprotect c.P (mprotect c.P k (ptr c v) v.cap .rw) (ptr c v - c.P) c.P .rw)
+    (ptr c v - c.P + (c.P + pageRound c.P v.cap)) c.P .rw
+
+/-- `deallocate` = make the data pages `rw`, wipe, make both guards `rw`, log, free (the only other change of the
+kernel is the ghost free log) -/
 theorem dealloc_kernel (c : Cfg) (m : Mach) (v : PVec) :
     (dealloc c m v).k =
-      mprotect c.P (mprotect c.P (mprotect c.P m.k (ptr c v) v.cap .rw) (ptr c v - c.P) c.P .rw)
-        (ptr c v - c.P + (c.P + pageRound c.P v.cap)) c.P .rw := rfl
+      { deallocCalls c m.k v with fr := (deallocCalls c m.k v).fr ++ [(v.base, v.cap)] } := rfl
 
 /-- after the first call of `deallocate` every byte of `[ptr, ptr+cap)` lies on a `rw` page -/
 theorem dealloc_first_rw {c : Cfg} (hP : 0 < c.P) (k : Kernel) (v : PVec) {off : Nat} (hoff : off < v.cap) :
